@@ -363,6 +363,26 @@ def _brief(v):
     return repr(v)[:160]
 
 
+def unresolved(dat):
+    """Names held by the object that are meant to name one of its blocks but are not a key of its own grid
+    (only when the object has blocks): [(kind, name)].  Block names are kept in memory in their repaired
+    spelling ('AA106' for the (A3,I2) name 'AA1 6'); a name left in file spelling does not resolve."""
+    g = dat.grid
+    if g is None or not g.blocklist:
+        return []
+    out = []
+    pb = dat.parameter.get('print_block') if dat.parameter else None
+    if isinstance(pb, str) and pb.strip() and pb not in g.block:
+        out.append(('PARAM/print_block', pb))
+    for gen in dat.generatorlist:
+        if gen.block not in g.block:
+            out.append(('GENER/block', gen.block))
+    for name in dat.incon:
+        if name not in g.block:
+            out.append(('INCON/block', name))
+    return out
+
+
 def show(diffs, n=3):
     return '; '.join('%s: expected %s got %s' % ('/'.join(str(p)[:40] for p in path), _brief(a), _brief(b))
                      for path, a, b in diffs[:n])
